@@ -260,6 +260,9 @@ int main(int argc, char** argv)
             int st = 0;
             waitpid(pid, &st, 0);
             if (WIFSIGNALED(st)) { std::printf("%s | CRASH signal=%d\n", t[0].c_str(), WTERMSIG(st)); std::fflush(stdout); }
+            else if (WIFEXITED(st) && WEXITSTATUS(st) != 0) {   // a sanitizer report ends the child with its exitcode
+                std::printf("%s | CRASH exit=%d\n", t[0].c_str(), WEXITSTATUS(st)); std::fflush(stdout);
+            }
             continue;
         }
         std::set_terminate(on_terminate);
